@@ -11,7 +11,7 @@ from sa.decide import Walker, completions
 from .c06 import _strip
 
 TECHNIQUE = ("literal agreement of the message template and EIP-191 prefix with the firmware headers, "
-             "dominance facts for the bounds of SignerVersion / SignerAuthorization constructors, byte-layout "
+             "dominance facts (constants folded, local names expanded) for the bounds of SignerVersion / SignerAuthorization constructors, byte-layout "
              "normalisation of the authorize exchange, path rules for early stop and failure, writer/reader "
              "key agreement of the authorization file")
 EXPLANATION = (
